@@ -6,6 +6,7 @@ import Tahoe.BackupDb
 
     op ::= cf:<path>:<size>:<mtime>:<ctime>:<ts 0|1>:<now>:<rnd>    check_file → `<filecap|N>,<should_check T|F>,<was_uploaded()|F>`
          | up:<cap>:<path>:<mtime>:<ctime>:<size>:<now>             did_upload_file → `ok`
+         | upr:<k>:<cap>:<now>                                      FileResult(of the k-th cf of this line, 0-based).did_upload → `ok`
          | hl:<cap>:<now>                                           did_check_file_healthy → `ok`
          | cd:<entries>:<now>:<rnd>                                 check_directory → `<hashed data>,<dircap|N>,<T|F>,<was_created()|F>`
          | dc:<dircap>:<entries>:<now>                              DirectoryResult(of check_directory(entries)).did_create → `ok`
@@ -50,33 +51,36 @@ def dump (db : DB) : String :=
     (fun (k, r) => s!"{hexOfBytes k}/{hexOfBytes r.dircap}/{r.uploaded}/{r.checked}")
   s!"lf[{"|".intercalate lf}]caps[{"|".intercalate caps}]lu[{"|".intercalate lu}]dirs[{"|".intercalate dirs}]"
 
-def stepOp (db : DB) (op : String) : Option (DB × String) :=
+def stepOp (db : DB) (res : List FileResult) (op : String) : Option (DB × List FileResult × String) :=
   match op.splitOn ":" with
   | ["cf", p, sz, mt, ct, ts, now, rnd] => do
     let ts ← (if ts == "1" then some true else if ts == "0" then some false else none)
     let (db', r) := checkFile db (← bytesOfHex p) ⟨← sz.toInt?, ← mt.toInt?, ← ct.toInt?⟩ ts (← now.toInt?) (← rnd.toNat?)
-    pure (db', s!"{hexOpt r.filecap},{tf r.shouldCheck},{hexOrF r.wasUploaded}")
+    pure (db', res ++ [r], s!"{hexOpt r.filecap},{tf r.shouldCheck},{hexOrF r.wasUploaded}")
   | ["up", cap, p, mt, ct, sz, now] => do
-    pure (didUploadFile db (← bytesOfHex cap) (← bytesOfHex p) (← mt.toInt?) (← ct.toInt?) (← sz.toInt?) (← now.toInt?), "ok")
-  | ["hl", cap, now] => do pure (didCheckFileHealthy db (← bytesOfHex cap) (← now.toInt?), "ok")
+    pure (didUploadFile db (← bytesOfHex cap) (← bytesOfHex p) (← mt.toInt?) (← ct.toInt?) (← sz.toInt?) (← now.toInt?), res, "ok")
+  | ["upr", k, cap, now] => do
+    let r ← res[(← k.toNat?)]?
+    pure (r.didUpload db (← bytesOfHex cap) (← now.toInt?), res, "ok")
+  | ["hl", cap, now] => do pure (didCheckFileHealthy db (← bytesOfHex cap) (← now.toInt?), res, "ok")
   | ["cd", es, now, rnd] => do
     let es ← parseEntries es
     let r := checkDirectory id db es (← now.toInt?) (← rnd.toNat?)
-    pure (db, s!"{hexOfBytes r.dirhash},{hexOpt r.dircap},{tf r.shouldCheck},{hexOrF r.wasCreated}")
+    pure (db, res, s!"{hexOfBytes r.dirhash},{hexOpt r.dircap},{tf r.shouldCheck},{hexOrF r.wasCreated}")
   | ["dc", d, es, now] => do
-    pure (didCreateDirectory db (← bytesOfHex d) (dirData (← parseEntries es)) (← now.toInt?), "ok")
-  | ["dh", d, now] => do pure (didCheckDirectoryHealthy db (← bytesOfHex d) (← now.toInt?), "ok")
-  | ["dump"] => some (db, dump db)
+    pure (didCreateDirectory db (← bytesOfHex d) (dirData (← parseEntries es)) (← now.toInt?), res, "ok")
+  | ["dh", d, now] => do pure (didCheckDirectoryHealthy db (← bytesOfHex d) (← now.toInt?), res, "ok")
+  | ["dump"] => some (db, res, dump db)
   | _ => none
 
-def runOps (db : DB) (acc : List String) : List String → Option (List String)
+def runOps (db : DB) (res : List FileResult) (acc : List String) : List String → Option (List String)
   | [] => some acc.reverse
-  | op :: rest => match stepOp db op with
-    | some (db', out) => runOps db' (out :: acc) rest
+  | op :: rest => match stepOp db res op with
+    | some (db', res', out) => runOps db' res' (out :: acc) rest
     | none => none
 
 def handle : List String → String
-  | "hist" :: ops => match runOps {} [] ops with
+  | "hist" :: ops => match runOps {} [] [] ops with
     | some outs => ";".intercalate outs
     | none => "bad-op"
   | _ => "bad-op"
